@@ -111,3 +111,151 @@ fn lemma_named_moves(d: usize) -> (r: (usize, usize, usize))
         "inverse.k == d+2-k, involution, k + inverse.k == d+2, no overflow",
   mutant=dict(file=FLIPS, old="k: self.d + 2 - self.k,", new="k: self.d + 1 - self.k,",
               desc="inverse move count d+2-k becomes d+1-k"))
+
+# ======================================================================================
+# C02 : what is checked, and when  (decision tables, engine V)
+# ======================================================================================
+OPS = "src/core/operations.rs"
+TRI = "src/core/triangulation.rs"
+DT = "src/core/delaunay_triangulation.rs"
+EULER = "src/topology/characteristics/euler.rs"
+_DER = "#[derive(Clone, Copy, PartialEq, Eq, Structural)]"
+_T_SUSP = dict(kind="type", file=OPS, anchor=r"pub struct SuspicionFlags\s*\{", name="SuspicionFlags", derive="#[derive(Clone, Copy)]")
+_T_VP = dict(kind="type", file=TRI, anchor=r"pub enum ValidationPolicy\s*\{", name="ValidationPolicy", derive=_DER)
+_T_TG = dict(kind="type", file=TRI, anchor=r"pub enum TopologyGuarantee\s*\{", name="TopologyGuarantee", derive=_DER)
+_T_TOP = dict(kind="type", file=OPS, anchor=r"pub enum TopologicalOperation\s*\{", name="TopologicalOperation", derive=_DER)
+_IMPL_SF = r"impl\s+SuspicionFlags\s*\{"
+_IMPL_VP = r"impl\s+ValidationPolicy\s*\{"
+_IMPL_TG = r"impl\s+TopologyGuarantee\s*\{"
+_IMPL_TOP = r"impl\s+TopologicalOperation\s*\{"
+_SUSP_SPEC = "(self.perturbation_used || self.empty_conflict_region || self.fallback_star_split || self.repair_loop_entered || self.cells_removed || self.neighbor_pointers_rebuilt)"
+_SUSP_ARG = _SUSP_SPEC.replace("self.", "suspicion.")
+
+
+def M(impl, file, within, name, contract, **kw):
+    return dict(kind="method", impl=impl, file=file, within=within, anchor=r"\bfn\s+" + name + r"\b",
+                name=f"{impl}::{name}", contract=contract, **kw)
+
+
+V("policy", ["C02", "C05"], [
+    _T_SUSP, _T_VP, _T_TG,
+    M("SuspicionFlags", OPS, _IMPL_SF, "is_suspicious", dict(ensures=[f"r == {_SUSP_SPEC}"])),
+    M("ValidationPolicy", TRI, _IMPL_VP, "should_validate", dict(ensures=[
+        "(self is Always) ==> r", "(self is Never) ==> !r",
+        f"(self is OnSuspicion) ==> (r == {_SUSP_ARG})",
+        f"(self is DebugOnly) ==> ({_SUSP_ARG} ==> r)"])),
+    M("TopologyGuarantee", TRI, _IMPL_TG, "requires_vertex_links_during_insertion",
+      dict(ensures=["r == (self is PLManifoldStrict)"])),
+    M("TopologyGuarantee", TRI, _IMPL_TG, "requires_vertex_links_at_completion",
+      dict(ensures=["r == ((self is PLManifold) || (self is PLManifoldStrict))"])),
+    M("TopologyGuarantee", TRI, _IMPL_TG, "requires_ridge_links",
+      dict(ensures=["r == ((self is PLManifold) || (self is PLManifoldStrict))"])),
+    M("TopologyGuarantee", TRI, _IMPL_TG, "is_compatible_with_policy",
+      dict(ensures=["r == ((self is Pseudomanifold) || !(policy is Never))"])),
+], lemmas="""
+// every suspicious event forces validation under OnSuspicion; Strict implies everything PLManifold checks
+fn lemma_strict_is_strongest(g: TopologyGuarantee) -> (r: (bool, bool, bool))
+    ensures (g is PLManifoldStrict) ==> (r.0 && r.1 && r.2),
+            (g is PLManifold) ==> (!r.0 && r.1 && r.2),
+            (g is Pseudomanifold) ==> (!r.0 && !r.1 && !r.2),
+{
+    (g.requires_vertex_links_during_insertion(), g.requires_vertex_links_at_completion(), g.requires_ridge_links())
+}
+""",
+  claim="SuspicionFlags::is_suspicious == disjunction of all six flags; ValidationPolicy::should_validate table; "
+        "TopologyGuarantee::requires_* tables (Strict => all three, PLManifold => ridge links + completion, Pseudomanifold => none)",
+  mutant=dict(file=OPS, old="            || self.cells_removed\n", new="", desc="cells_removed dropped from is_suspicious"))
+
+# ======================================================================================
+# C08 / C06 : admissibility gate and repair decision (engine V)
+# ======================================================================================
+V("admissibility", ["C08", "C06"], [
+    _T_TG, _T_TOP,
+    M("TopologicalOperation", OPS, _IMPL_TOP, "requires_pl_manifold", dict(ensures=["r == (self is CavityFlip)"])),
+    M("TopologicalOperation", OPS, _IMPL_TOP, "is_admissible_under",
+      dict(ensures=["r == !((topology is Pseudomanifold) && (self is CavityFlip))"])),
+    M("TopologicalOperation", OPS, _IMPL_TOP, "required_topology",
+      dict(ensures=["(self is CavityFlip) ==> (r is PLManifold)", "!(self is CavityFlip) ==> (r is Pseudomanifold)"])),
+    dict(kind="type", file=OPS, anchor=r"pub enum RepairSkipReason\s*\{", name="RepairSkipReason"),
+    dict(kind="type", file=OPS, anchor=r"pub enum RepairDecision\s*\{", name="RepairDecision"),
+    dict(kind="type", file=DT, anchor=r"pub enum DelaunayRepairPolicy\s*\{", name="DelaunayRepairPolicy", derive="#[derive(Clone, Copy)]"),
+    dict(kind="type", file=DT, anchor=r"pub enum DelaunayCheckPolicy\s*\{", name="DelaunayCheckPolicy", derive="#[derive(Clone, Copy)]"),
+    M("DelaunayRepairPolicy", DT, r"impl\s+DelaunayRepairPolicy\s*\{", "should_repair",
+      dict(ensures=["(self is Never) ==> !r", "(self is EveryInsertion) ==> r"])),
+    M("DelaunayCheckPolicy", DT, r"impl\s+DelaunayCheckPolicy\s*\{", "should_check",
+      dict(ensures=["(self is EndOnly) ==> !r"])),
+    M("DelaunayRepairPolicy", OPS, r"impl\s+DelaunayRepairPolicy\s*\{", "decide",
+      dict(ensures=["(r is Proceed) ==> !((topology is Pseudomanifold) && (operation is CavityFlip))",
+                    "(self is Never) ==> !(r is Proceed)",
+                    "(self is EveryInsertion) ==> ((r is Proceed) == !((topology is Pseudomanifold) && (operation is CavityFlip)))",
+                    "(r is Skip) ==> ((r->reason is PolicyDisabled) || ((r->reason is Inadmissible) && (topology is Pseudomanifold) && (operation is CavityFlip)))"])),
+], prelude="use std::num::NonZeroUsize;", lemmas="""
+// an operation is always admissible under the guarantee it says it requires, and under anything stronger
+fn lemma_required_is_admissible(op: TopologicalOperation) -> (r: (bool, bool, bool))
+    ensures r.0, r.1, r.2,
+{
+    (op.is_admissible_under(op.required_topology()),
+     op.is_admissible_under(TopologyGuarantee::PLManifold),
+     op.is_admissible_under(TopologyGuarantee::PLManifoldStrict))
+}
+""",
+  claim="TopologicalOperation::{requires_pl_manifold,is_admissible_under,required_topology}: admissible <=> not (Pseudomanifold and CavityFlip); "
+        "DelaunayRepairPolicy::decide == Proceed only if admissible, never under policy Never; should_repair / should_check tables (EveryN arithmetic: K-full unit everyn)",
+  mutant=dict(file=OPS, old="TopologyGuarantee::Pseudomanifold => !self.requires_pl_manifold(),",
+              new="TopologyGuarantee::Pseudomanifold => self.requires_pl_manifold(),", desc="admissibility gate inverted"))
+
+V("maxflips", ["C08", "C19"], [
+    dict(kind="fn", file=FLIPS, anchor=r"\bfn\s+default_max_flips\b", name="default_max_flips",
+         contract=dict(ensures=["r >= 512", "D >= 4 ==> r >= 4096",
+                                "D <= 2 && cell_count * (D + 1) * 4 <= usize::MAX ==> r == (if cell_count * (D + 1) * 4 >= 512 { cell_count * (D + 1) * 4 } else { 512 })",
+                                ])),
+], lemmas="""
+fn lemma_budget_monotone<const D: usize>(a: usize, b: usize) -> (r: (usize, usize))
+    requires a <= b, D <= 2, b * (D + 1) * 4 <= usize::MAX,
+    ensures r.0 <= r.1,
+{
+    assert(a * (D + 1) * 4 <= b * (D + 1) * 4) by (nonlinear_arith) requires a <= b;
+    (default_max_flips::<D>(a), default_max_flips::<D>(b))
+}
+""",
+  claim="default_max_flips::<D>(cell_count): finite, >= 512 (D >= 4 debug: >= 4096), never overflows, monotone while unsaturated (D <= 2)",
+  mutant=dict(file=FLIPS, old="    base.max(512)", new="    base.min(512)", desc="budget floor becomes a cap"))
+
+# ======================================================================================
+# C15 : expected Euler characteristic table (engine V)
+# ======================================================================================
+V("chi", ["C15"], [
+    dict(kind="type", file=EULER, anchor=r"pub enum TopologyClassification\s*\{", name="TopologyClassification"),
+    dict(kind="fn", file=EULER, anchor=r"\bfn\s+expected_chi_for\b", name="expected_chi_for",
+         contract=dict(ensures=[
+             "(classification is Empty) ==> r == Some(0isize)",
+             "(classification is SingleSimplex) ==> r == Some(1isize)",
+             "(classification is Ball) ==> r == Some(1isize)",
+             "(classification is Unknown) ==> r is None",
+             "(classification is ClosedSphere) ==> r == Some(if classification->ClosedSphere_0 % 2 == 0 { 2isize } else { 0isize })"])),
+], claim="expected_chi_for: Ball / SingleSimplex -> 1, Empty -> 0, ClosedSphere(d) -> 1 + (-1)^d, Unknown -> None",
+  mutant=dict(file=EULER, old="TopologyClassification::SingleSimplex(_) | TopologyClassification::Ball(_) => Some(1),",
+              new="TopologyClassification::SingleSimplex(_) => Some(1),\n        TopologyClassification::Ball(_) => Some(0),",
+              desc="a ball is expected to have chi = 0"))
+
+# ======================================================================================
+# C01 : accounting predicates (engine V)
+# ======================================================================================
+_IMPL_IS = r"impl\s+InsertionStatistics\s*\{"
+V("insertstats", ["C01"], [
+    dict(kind="type", file=OPS, anchor=r"pub enum InsertionResult\s*\{", name="InsertionResult", derive=_DER),
+    dict(kind="type", file=OPS, anchor=r"pub struct InsertionStatistics\s*\{", name="InsertionStatistics", derive="#[derive(Clone, Copy)]"),
+    M("InsertionStatistics", OPS, _IMPL_IS, "used_perturbation", dict(ensures=["r == (self.attempts > 1)"])),
+    M("InsertionStatistics", OPS, _IMPL_IS, "success", dict(ensures=["r == (self.result is Inserted)"])),
+    M("InsertionStatistics", OPS, _IMPL_IS, "skipped", dict(ensures=["r == !(self.result is Inserted)"])),
+    M("InsertionStatistics", OPS, _IMPL_IS, "skipped_duplicate", dict(ensures=["r == (self.result is SkippedDuplicate)"])),
+], lemmas="""
+fn lemma_success_xor_skipped(s: InsertionStatistics) -> (r: (bool, bool, bool))
+    ensures r.0 != r.1, r.2 ==> r.1,
+{
+    (s.success(), s.skipped(), s.skipped_duplicate())
+}
+""",
+  claim="InsertionStatistics: success XOR skipped; skipped_duplicate => skipped",
+  mutant=dict(file=OPS, old="            InsertionResult::SkippedDuplicate | InsertionResult::SkippedDegeneracy\n",
+              new="            InsertionResult::SkippedDuplicate\n", desc="SkippedDegeneracy no longer counts as skipped"))
